@@ -1,4 +1,5 @@
 import Poly.Proofs.CCM
+import Poly.Generated.RouterStart
 /-!
 # C21 — Imports are gated by the chain registry and blacklist
 
@@ -120,6 +121,20 @@ theorem import_keeps_gates (H : Bytes → Bytes) (o : Oracles α ι) (hconf : De
     (importExTransfer H o env s src inp).state.black = s.black ∧
     (importExTransfer H o env s src inp).state.chains = s.chains :=
   import_black_chains H o hconf env s src inp
+
+/-- **The model's router tables are the source's.** `Poly.Generated.RouterStart` is regenerated from
+`utils.CheckRouterStartBlock` and `cross_chain_manager.GetChainHandler` on every run: the model's start block is the
+main-net start block exactly for the routers of the `switch` (and 0 elsewhere and on other networks), the comparison
+and the network condition are the ones the model was written for (`block < start` rejects, i.e. the first admitted
+height is `start`), and the routers with a handler are the model's `supportedRouters`. -/
+theorem router_tables_match_source :
+    (∀ r ∈ List.range 256, routerStartBlock true r =
+      if r ∈ Poly.Generated.RouterStart.gatedRouters then Poly.Generated.RouterStart.mainNetStart else 0) ∧
+    (∀ r ∈ List.range 256, routerStartBlock false r = 0) ∧
+    Poly.Generated.RouterStart.rejectCondition = "startBLock > 0 && block < startBLock" ∧
+    Poly.Generated.RouterStart.networkGuard = "config.DefConfig.P2PNode.NetworkId == config.NETWORK_ID_MAIN_NET" ∧
+    supportedRouters = Poly.Generated.RouterStart.handlerRouters := by
+  decide +kernel
 
 /-- Non-vacuity: an import that passes all gates, the same import after BlackChain of its destination (rejected), and
 after WhiteChain again (accepted). -/
